@@ -165,3 +165,72 @@ def fanout_pipeline(tier):
         work.cleanup()
     cache_put(key, res)
     return res
+
+
+# ------------------------------------------------------------------ graceful shutdown at system level (C16)
+SD_TIERS = {"quick": {"cases": 30, "stalled": 3}, "thorough": {"cases": 500, "stalled": 40}}
+
+
+def shutdown_pipeline(tier):
+    """ServerLife.tla (registrations racing with Server::shutdown, two locks, close-then-join) model-checked;
+    TLC enumerates the situations (ServerLifeCases); each is built for real, the server gets the interrupt
+    signal and Trace_ServerLife validates hook events and observations."""
+    key = "shutdown-%s-%s-%d" % (tier, tree_key(), seed())
+    c = cache_get(key)
+    if c is not None:
+        log("[shutdown] reusing pipeline result computed %.0fs ago for the same tree/seed" % (time.time() - c["at"]))
+        c["cached"] = True
+        return c
+    build_harness()
+    T = SD_TIERS[tier]
+    work = Work("shutdown-%s" % tier)
+    t0 = time.time()
+    res = {"at": time.time(), "cached": False}
+    try:
+        m = tlc("ServerLife", "MC_ServerLife.cfg", work, workers=8, timeout=1800, coverage=True)
+        cov = m.coverage()
+        res["models"] = [{"module": "ServerLife", "cfg": "MC_ServerLife.cfg", "states": m.distinct, "transitions": m.generated,
+                          "ok": m.ok, "violated": m.violated or m.errors[:2], "wall_s": round(m.wall, 1),
+                          "actions_never_taken": sorted(a for a, v in cov.items() if v[1] == 0)}]
+        res["model_ok"] = m.ok
+        res["model_tail"] = "" if m.ok else m.out[-3000:]
+        g = tlc("ServerLifeCases", "MC_ServerLifeCases.cfg", work, workers=4, timeout=1800)
+        cases = g.case_lines()
+        total = len(cases)
+        rnd = random.Random(seed())
+        rnd.shuffle(cases)
+        st = [c_ for c_ in cases if any(t["stall"] for t in c_["topics"])][:T["stalled"]]
+        ok = [c_ for c_ in cases if not any(t["stall"] for t in c_["topics"])][:T["cases"] - len(st)]
+        cases = ok + st
+        rnd.shuffle(cases)
+        cf = work.path("sd-cases.jsonl")
+        with open(cf, "w") as f:
+            for c_ in cases:
+                f.write(json.dumps(c_) + "\n")
+        trace = work.path("trace-shutdown.ndjson")
+        p = sh([os.path.join(BIN, "e2e"), "shutdown", "--cases", cf, "--out", trace], timeout=7200)
+        summ = json.loads(p.stdout.strip().splitlines()[-1])
+        r = tlc("Trace_ServerLife", "Trace_ServerLife.cfg", work, workers=1, trace=trace, timeout=3600, xmx="8g")
+        if not r.ok:
+            raise ToolError("trace validation (Trace_ServerLife) did not complete:\n%s" % r.out[-3000:])
+        lines = [x for x in open(trace).read().split("\n") if x]
+        starts = [i for i, x in enumerate(lines) if x.startswith('{"case"') or '"ev":"case"' in x[:200]]
+        viols = []
+        for v in r.viol:
+            v = dict(v)
+            b = max([i for i in starts if i < v["line"]] or [0])
+            v["event"] = json.loads(lines[v["line"] - 1]) if v["line"] - 1 < len(lines) else {}
+            v["context"] = [json.loads(x) for x in lines[b:v["line"]]][-80:]
+            viols.append(v)
+        returned = sum(1 for x in lines if '"ev":"listen_returned"' in x)
+        hung_ok = sum(1 for x in lines if '"ev":"listen_hung"' in x and '"stalled":true' in x)
+        res.update({"cases_total": total, "cases_used": len(cases), "stalled_cases": len(st), "events": summ["events"], "runs": summ["runs"],
+                    "listen_returned": returned, "listen_hung_with_a_peer_that_does_not_read": hung_ok,
+                    "viol": viols[:60], "n_viol": len(viols), "inconclusive": r.notes[:10], "n_inconclusive": len(r.notes),
+                    "sample": [json.loads(x) for x in lines[:30] if '"ev":"sub_summary"' not in x][:18], "wall_s": round(time.time() - t0, 1)})
+        log("[shutdown] ServerLife %d states ok=%s; %d of %d situations built for real (%d with a peer that does not read): listen() returned %d times; flagged %d, inconclusive %d" % (
+            m.distinct, m.ok, len(cases), total, len(st), returned, len(viols), len(r.notes)))
+    finally:
+        work.cleanup()
+    cache_put(key, res)
+    return res
